@@ -259,6 +259,7 @@ def _series_instances():
     out += [(Q, (F, F, T, F), "wider", (), (), False),           # span extends one period beyond the data on both sides
             (Q, (F, F, F, F, F), "inside", (), (), False),        # span strictly inside the data: output clipped only
             (Q, (F, T, F, F, F), "inside", (), (), False),
+            (Q, (F, F, F, F, F), "inside_descending", (), (), False),      # the same periods written latest-first: a span only says WHICH periods
             (Q, (F, F, F, F), "none", (2,), (), False), (Q, (F, F, F, F), "none", (), (1,), False), (Q, (F, F, F, F, F), "none", (0,), (0, 3), False),
             (Q, (F, F, F), "level_beyond", (), (), False)]         # a level constraint one period after the data extends the filter span
     return out
@@ -287,6 +288,9 @@ def hpf_on_series(K, cls, pattern, span_kind, lev, chg, log):
         out0, outn = start - 1, n + 2
     elif span_kind == "inside":
         span = K.call(D.Span, K.obj(cls, serial=start + 1), K.obj(cls, serial=start + n - 2))
+        out0, outn = start + 1, n - 2
+    elif span_kind == "inside_descending":
+        span = K.call(D.Span, K.obj(cls, serial=start + n - 2), K.obj(cls, serial=start + 1), -1)
         out0, outn = start + 1, n - 2
     lev, chg = list(lev), list(chg)
     level = change = None
